@@ -135,7 +135,15 @@ func check(c Case) *vk.Violation {
 	}
 	target := time.Unix(c.NowUnix, c.NowNanos).UTC().Add(time.Duration(c.Nanos)).Truncate(time.Second)
 	if target.Year() < 2000 || target.Year() > 2099 {
-		return nil // two-digit year cannot express it: outside the stated domain
+		// a two-digit year cannot tell the century: what instant the string means is outside the stated domain,
+		// but whatever is returned is still "empty or a 16-character SMPP time" - never a malformed string
+		if out != "" {
+			f, tenths, nn, p, ok := parse16(out)
+			if !ok || p != '+' || tenths != 0 || nn != 0 || f[1] < 1 || f[1] > 12 || f[2] < 1 || f[2] > 31 || f[3] >= 24 || f[4] >= 60 || f[5] >= 60 {
+				return vk.Violf("absolute/format-beyond-2099", c, "now=%s + %q (target year %d): result %q is not a 16-character YYMMDDhhmmss000+ time", c.now().Format(time.RFC3339), c.Dur, target.Year(), out)
+			}
+		}
+		return nil
 	}
 	if out == "" && c.Nanos == 0 {
 		return nil
